@@ -34,10 +34,13 @@ type poolCfg struct {
 	SpawnUs  int `json:"spawnUs"`
 	ExpiryUs int `json:"expiryUs"` // 0 = 10 minutes
 	JamUs    int `json:"jamUs"`
+	// NodePool: nodeHookPoolSize of the job queue (0 in old replay files = 100); small values make the queue's
+	// house-keeping goroutine trim spare nodes between bursts
+	NodePool int `json:"nodePool"`
 }
 
 func (c poolCfg) String() string {
-	return fmt.Sprintf("max=%d standby=%d batch=%d chan=%d buf=%d spawn=%dus expiry=%dus jam=%dus", c.Max, c.StandBy, c.Batch, c.ChanCap, c.Buffer, c.SpawnUs, c.ExpiryUs, c.JamUs)
+	return fmt.Sprintf("max=%d standby=%d batch=%d chan=%d buf=%d spawn=%dus expiry=%dus jam=%dus nodePool=%d", c.Max, c.StandBy, c.Batch, c.ChanCap, c.Buffer, c.SpawnUs, c.ExpiryUs, c.JamUs, c.NodePool)
 }
 
 const (
@@ -86,6 +89,8 @@ type scenario struct {
 	PreAllocN int `json:"preAllocN"`
 	// NilHandler: no panic handler is installed (SetPanicHandler(nil)); job panics must still be contained
 	NilHandler bool `json:"nilHandler"`
+	// ReplaceHandler: after every phase that ends with wait-for-idle a new panic handler is installed
+	ReplaceHandler bool `json:"replaceHandler"`
 	// KeepQueueOpen: SetIsJobQueueClosedWhenClose(false): Close() only closes the pool, not the job queue
 	KeepQueueOpen bool `json:"keepQueueOpen"`
 	// ViaSetters: the job queue and the Invokables are installed through SetJobQueue / SetWorkerPool / SetCallee
@@ -117,7 +122,7 @@ func (s scenario) String() string {
 		}
 		sb.WriteString("]")
 	}
-	fmt.Fprintf(&sb, " close=%v directedExit=%v preAlloc=%dx(%d) nilHandler=%v keepQueueOpen=%v viaSetters=%v plan=%v", s.Close, s.DirectedExit, s.PreAlloc, s.PreAllocN, s.NilHandler, s.KeepQueueOpen, s.ViaSetters, s.Plan)
+	fmt.Fprintf(&sb, " close=%v directedExit=%v preAlloc=%dx(%d) nilHandler=%v replaceHandler=%v keepQueueOpen=%v viaSetters=%v plan=%v", s.Close, s.DirectedExit, s.PreAlloc, s.PreAllocN, s.NilHandler, s.ReplaceHandler, s.KeepQueueOpen, s.ViaSetters, s.Plan)
 	return sb.String()
 }
 
@@ -141,6 +146,7 @@ func genScenario(t *rapid.T) scenario {
 	c.Buffer = rapid.SampledFrom([]int{0, 1, 2, 5, 20}).Draw(t, "buffer")
 	c.SpawnUs = rapid.SampledFrom([]int{50, 200, 1000}).Draw(t, "spawnUs")
 	c.JamUs = rapid.SampledFrom([]int{1000, 1000000}).Draw(t, "jamUs")
+	c.NodePool = rapid.SampledFrom([]int{100, 100, 1, 2, 3}).Draw(t, "nodePool")
 	nj := rapid.IntRange(1, 60).Draw(t, "jobs")
 	faults := rapid.SampledFrom([]string{"none", "none", "first", "last", "everyK", "random"}).Draw(t, "faults")
 	k := rapid.IntRange(2, 5).Draw(t, "k")
@@ -200,6 +206,7 @@ func genScenario(t *rapid.T) scenario {
 		s.PreAllocN = rapid.IntRange(1, c.Max+2).Draw(t, "preAllocN")
 	}
 	s.NilHandler = rapid.IntRange(0, 4).Draw(t, "nilHandler") == 0
+	s.ReplaceHandler = rapid.Bool().Draw(t, "replaceHandler")
 	s.KeepQueueOpen = rapid.IntRange(0, 3).Draw(t, "keepQueueOpen") == 0
 	s.ViaSetters = rapid.IntRange(0, 3).Draw(t, "viaSetters") == 0
 	s.Plan = vlib.DrawPlan(t, poolPoints, 6)
@@ -246,9 +253,13 @@ func runScenario(s scenario) result {
 	var exitSeen int32
 	sched.OnPoint = func(point string, obj any) {}
 	c := s.Cfg
-	q := fpgo.NewBufferedChannelQueue[func()](c.ChanCap, c.Buffer, 100).
+	nodePool := c.NodePool
+	if nodePool == 0 {
+		nodePool = 100
+	}
+	q := fpgo.NewBufferedChannelQueue[func()](c.ChanCap, c.Buffer, nodePool).
 		SetLoadFromPoolDuration(20 * time.Microsecond).
-		SetFreeNodeHookPoolIntervalDuration(time.Millisecond)
+		SetFreeNodeHookPoolIntervalDuration(300 * time.Microsecond)
 	expiry := time.Duration(c.ExpiryUs) * time.Microsecond
 	if c.ExpiryUs == 0 {
 		expiry = 10 * time.Minute
@@ -256,6 +267,19 @@ func runScenario(s scenario) result {
 	var handlerMu sync.Mutex
 	handlerCalls := map[int]int{}
 	handlerBad := ""
+	handlerGen := map[int]int{} // generation of the handler that was told about job id
+	mkHandler := func(g int) func(interface{}) {
+		return func(p interface{}) {
+			handlerMu.Lock()
+			if id, ok := p.(int); ok {
+				handlerCalls[id]++
+				handlerGen[id] = g
+			} else {
+				handlerBad = fmt.Sprintf("panic handler invoked with %v (%T), not a job's own panic value", p, p)
+			}
+			handlerMu.Unlock()
+		}
+	}
 	var pool *worker.DefaultWorkerPool
 	if s.ViaSetters {
 		// constructed on a throw-away queue, the real one is installed before first use
@@ -294,15 +318,7 @@ func runScenario(s scenario) result {
 	if s.NilHandler {
 		pool.SetPanicHandler(nil)
 	} else {
-		pool.SetPanicHandler(func(p interface{}) {
-			handlerMu.Lock()
-			if id, ok := p.(int); ok {
-				handlerCalls[id]++
-			} else {
-				handlerBad = fmt.Sprintf("panic handler invoked with %v (%T), not a job's own panic value", p, p)
-			}
-			handlerMu.Unlock()
-		})
+		pool.SetPanicHandler(mkHandler(0))
 	}
 	closed := false
 	defer func() {
@@ -331,6 +347,8 @@ func runScenario(s scenario) result {
 			openGate(i)
 		}
 	}()
+	handlerGeneration := 0
+	phaseGen := make([]int, len(s.Phases))
 	phaseOf := make([]int, nj)
 	for pi, p := range s.Phases {
 		for _, subs := range p.Subs {
@@ -529,6 +547,30 @@ func runScenario(s scenario) result {
 			if !waitAllAcceptedRan(fmt.Sprintf("after phase %d", pi)) {
 				return res
 			}
+			// a new panic handler is installed while the pool is idle (its workers are alive): panics of
+			// jobs submitted from now on are reported to the handler that is installed, not to an earlier one
+			if s.ReplaceHandler && !s.NilHandler && pi+1 < len(s.Phases) {
+				settled := vlib.WaitUntil(vlib.StallBudget(), func() bool {
+					if atomic.LoadInt32(&inflight) != 0 {
+						return false
+					}
+					handlerMu.Lock()
+					defer handlerMu.Unlock()
+					for id := 0; id < nj; id++ {
+						if s.Jobs[id].Panics && atomic.LoadInt32(&runs[id]) >= 1 && handlerCalls[id] == 0 {
+							return false
+						}
+					}
+					return true
+				})
+				if settled {
+					handlerGeneration++
+					pool.SetPanicHandler(mkHandler(handlerGeneration))
+					for pj := pi + 1; pj < len(s.Phases); pj++ {
+						phaseGen[pj] = handlerGeneration
+					}
+				}
+			}
 		}
 		if p.SleepUs > 0 {
 			time.Sleep(time.Duration(p.SleepUs) * time.Microsecond)
@@ -617,6 +659,9 @@ func runScenario(s scenario) result {
 		}
 		if !s.NilHandler && handlerCalls[id] != want && atomic.LoadInt32(&runs[id]) <= 1 {
 			fail("C09/panic-handler", "panic handler called %d times for job %d (panics=%v, ran=%d), want %d", handlerCalls[id], id, s.Jobs[id].Panics, runs[id], want)
+		}
+		if !s.NilHandler && want == 1 && handlerCalls[id] == 1 && handlerGen[id] != phaseGen[phaseOf[id]] {
+			fail("C09/panic-handler-stale", "job %d (phase %d) panicked after panic handler #%d had been installed on the idle pool, but handler #%d was told", id, phaseOf[id], phaseGen[phaseOf[id]], handlerGen[id])
 		}
 	}
 	handlerMu.Unlock()
